@@ -222,6 +222,15 @@ func (w *world) settle() {
 
 func hist(depth int) {
 	w := setup(2)
+	// start either from nothing or from a context that already holds two subscriptions
+	if kit.ChooseFree(2) == 1 {
+		for _, t := range []string{"a", "b"} {
+			if err := w.ctxs[0].setOpt(mangos.OptionSubscribe, t); err != nil {
+				kit.Failf("subscribe-error", "Subscribe(%q): %s", t, kit.ErrName(err))
+			}
+			w.ctxs[0].subs = append(w.ctxs[0].subs, t)
+		}
+	}
 	kit.Hist(depth, w.events, w.settle)
 	// drain: everything the model still holds must come out, in order, and then nothing else
 	for _, m := range w.ctxs {
